@@ -81,7 +81,13 @@ LABELARITH = [
     sym('luiHiXor', lambda l: I('lui', rd=5, imm=('hi', ('position', l, 0x08000000, '0x08000001 ^ 1'))), 'ref'),
     sym('lwL', lambda l: I('lw', rd=8, rs1=8, imm=('label', l)), 'ref'),
     sym('addiOff', lambda l: I('addi', rd=8, rs1=8, imm=('offset', l)), 'ref'),
+    # the destination register written through a constant alias (RD5 = t0, defined by the family that uses these symbols)
+    sym('liOffAl', lambda l: dict(L.li(5, ('offset', l)), text='li RD5, %%offset(%s)' % l), 'ref'),
+    sym('liPosAl', lambda l: dict(L.li(5, ('position', l, B1)), text='li RD5, %%position(%s, %d)' % (l, B1)), 'ref'),
+    sym('liLabAl', lambda l: dict(L.li(5, ('label', l)), text='li RD5, %s' % l), 'ref'),
+    sym('addiLoAl', lambda l: dict(I('addi', rd=5, rs1=5, imm=('lo', ('position', l, B1))), text='addi RD5, RD5, %%lo(%%position(%s, %d))' % (l, B1)), 'ref'),
 ]
+ALIAS_DEF = L.const('RD5', 't0')
 # expressions that DECREASE in a label: their value grows when -c (or a shrinking pseudo-instruction) moves the label down
 NEGARITH = [
     sym('liNeg', lambda l: L.li(10, ('rsub', 2051, ('label', l))), 'ref'),
